@@ -754,8 +754,20 @@ fn run_decoder(chunks: &[String]) -> Vec<u64> {
     out
 }
 
-fn corpus() -> Vec<(PipeCase, Vec<usize>)> {
-    let mk = |body: &[u8], cuts: &[usize]| (PipeCase { body: body.to_vec(), off: 0, compat: false, terr: None }, cuts.to_vec());
+type Expected = Vec<(Option<String>, String)>;
+fn corpus() -> Vec<(PipeCase, Vec<usize>, Option<Expected>)> {
+    let mk = |body: &[u8], cuts: &[usize]| (PipeCase { body: body.to_vec(), off: 0, compat: false, terr: None }, cuts.to_vec(), None);
+    // with the events the body consists of: (SSE event name, payload = the joined data lines)
+    let ev = |body: &str, off: u64, cuts: &[usize], exp: &[(Option<&str>, &str)]| {
+        (
+            PipeCase { body: body.as_bytes().to_vec(), off, compat: false, terr: None },
+            cuts.to_vec(),
+            Some(exp.iter().map(|(e, r)| (e.map(|x| x.to_string()), r.to_string())).collect::<Expected>()),
+        )
+    };
+    let otd = Some(OTD);
+    let deep = |n: usize| nested("[", "]", "", n);
+    let d125 = format!("data: {}\n\ndata: {}\n\ndata: {}\n\n", deep(125), deep(126), deep(128));
     vec![
         // S11 first half: E2 82 'A' with the boundary right before E2
         mk(b"data: x\xE2\x82A\n\n", &[7]),
@@ -764,10 +776,58 @@ fn corpus() -> Vec<(PipeCase, Vec<usize>)> {
         mk(b"data: {\"type\":\"response.output_text.delta\",\"delta\":\"\xE2\x82\xAC\"}\r\n\r\n", &[50, 51, 59]),
         mk(b"event: e\n\ndata: x\n\n", &[9]),
         mk(b"data: x\n\r", &[8]),
+        // the delta comes from the payload's `delta` when its `type` says so: SSE event name that disagrees, keys in any
+        // order, a duplicate key (the last one counts), escapes; not from `text`, not from a nested object
+        ev(
+            "event: response.created\ndata: {\"delta\":\"a\\u00e9\\n\",\"type\":\"response.output_text.delta\"}\n\nevent: response.output_text.delta\ndata: {\"type\":\"response.output_text.delta\",\"delta\":\"no\",\"text\":\"T\",\"delta\":\"b\"}\n\ndata: {\"type\":\"response.output_text.done\",\"text\":\"full\",\"delta\":\"x\"}\n\ndata: {\"x\":{\"type\":\"response.output_text.delta\",\"delta\":\"nested\"}}\n\n",
+            3,
+            &[40, 41, 120],
+            &[
+                (Some("response.created"), "{\"delta\":\"a\\u00e9\\n\",\"type\":\"response.output_text.delta\"}"),
+                (otd, "{\"type\":\"response.output_text.delta\",\"delta\":\"no\",\"text\":\"T\",\"delta\":\"b\"}"),
+                (None, "{\"type\":\"response.output_text.done\",\"text\":\"full\",\"delta\":\"x\"}"),
+                (None, "{\"x\":{\"type\":\"response.output_text.delta\",\"delta\":\"nested\"}}"),
+            ],
+        ),
+        // a payload without `type` under the event name of a text delta: no delta frame (the mapper reads the payload only)
+        ev("event: response.output_text.delta\ndata: {\"delta\":\"typeless\"}\n\n", 0, &[10], &[(otd, "{\"delta\":\"typeless\"}")]),
+        // text that is not JSON is passed through as it stands: inner and trailing blanks, a quote, what looks like JSON
+        // followed by garbage; only the blanks after `data:` go
+        ev(
+            "data:   {not  json}  \n\ndata: \"a\"  x\t\n\ndata:{\"k\" : 1 ,}\n\ndata: [DONE] \n\ndata:[DONE]\n\n",
+            0,
+            &[5, 6, 30],
+            &[(None, "{not  json}  "), (None, "\"a\"  x\t"), (None, "{\"k\" : 1 ,}"), (None, "[DONE] "), (None, "[DONE]")],
+        ),
+        // number spellings and key order are the Value's, everything else survives; a value over several data lines
+        ev(
+            "data: {\"b\": [1.0, 1e2, -0, 18446744073709551616, 18446744073709551615, -9223372036854775808],\ndata: \"a\":{\"z\":null,\"y\":true,\"z\":false}}\n\n",
+            1 << 40,
+            &[7, 60],
+            &[(None, "{\"b\": [1.0, 1e2, -0, 18446744073709551616, 18446744073709551615, -9223372036854775808],\n\"a\":{\"z\":null,\"y\":true,\"z\":false}}")],
+        ),
+        // nesting: 125 levels is the deepest event, 126 / 128 levels are kept as text
+        ev(&d125, 0, &[200], &[(None, &deep(125)), (None, &deep(126)), (None, &deep(128))]),
+        // numbering right below 2^64: two frames end at u64::MAX
+        ev("data: {\"type\":\"response.output_text.delta\",\"delta\":\"z\"}\n\n", u64::MAX - 2, &[3], &[(None, "{\"type\":\"response.output_text.delta\",\"delta\":\"z\"}")]),
     ]
 }
 
+/// set while the harness provokes a u64 overflow on purpose: the panic message is not printed then
+static EXPECT_PANIC: std::sync::atomic::AtomicBool = std::sync::atomic::AtomicBool::new(false);
+fn expecting_panic<T>(f: impl FnOnce() -> T) -> T {
+    EXPECT_PANIC.store(true, std::sync::atomic::Ordering::SeqCst);
+    let r = f();
+    EXPECT_PANIC.store(false, std::sync::atomic::Ordering::SeqCst);
+    r
+}
+
 fn main() {
+    std::panic::set_hook(Box::new(|info| {
+        if !EXPECT_PANIC.load(std::sync::atomic::Ordering::SeqCst) {
+            eprintln!("c15: panic in the implementation: {info}");
+        }
+    }));
     let a = parse_args();
     let mut res = RunResult::new("C15", &a);
     res.rule = "cases = (SSE body from a grammar: LF/CRLF/mixed, comments, event names, unknown fields, multi-line data, [DONE] in the middle, missing final blank line, CR-only tail, truncation, 2-4 byte characters, injected invalid/overlong/surrogate/truncated sequences) x (partition: one chunk, every single split, byte at a time, random cuts incl. empty chunks) for the real pipe; text-chunk cases for SseDecoder+mapper; byte strings for from_utf8. non-trivial = body with >= 1 event and a partition with >= 2 chunks (or a from_utf8 error). distinct by hash of (body, cuts)".into();
@@ -797,12 +857,12 @@ fn main() {
 
     // ---- pipe level
     // does this build check u64 overflow?  (a frame numbered from u64::MAX: `*seq += 1` panics iff it does)
-    let overflow_checks = std::panic::catch_unwind(std::panic::AssertUnwindSafe(|| run.pipe(&[b"data: x\n\n".to_vec()], u64::MAX, false, None))).is_err();
+    let overflow_checks = expecting_panic(|| std::panic::catch_unwind(std::panic::AssertUnwindSafe(|| run.pipe(&[b"data: x\n\n".to_vec()], u64::MAX, false, None))).is_err());
     res.bump(if overflow_checks { "build.overflow_checks_on" } else { "build.overflow_checks_off" });
     let nbodies = if thorough { 12000 } else { 450 };
     let mut bodies: Vec<(Body, PipeCase, Option<Vec<usize>>)> = vec![];
-    for (pc, cuts) in corpus() {
-        bodies.push((Body { bytes: pc.body.clone(), expected: None, tags: vec!["corpus"] }, pc, Some(cuts)));
+    for (pc, cuts, expected) in corpus() {
+        bodies.push((Body { bytes: pc.body.clone(), expected, tags: vec!["corpus"] }, pc, Some(cuts)));
     }
     for _ in 0..nbodies {
         let mut b = gen_body(&mut r);
@@ -860,7 +920,7 @@ fn main() {
             res.oracle_checks += 1;
             let cuts = parts[parts.len() - 1].clone();
             let chunks = split_at_cuts(&pc.body, &cuts);
-            let panicked = std::panic::catch_unwind(std::panic::AssertUnwindSafe(|| run.pipe(&chunks, pc.off, pc.compat, pc.terr.as_deref()))).is_err();
+            let panicked = expecting_panic(|| std::panic::catch_unwind(std::panic::AssertUnwindSafe(|| run.pipe(&chunks, pc.off, pc.compat, pc.terr.as_deref()))).is_err());
             res.bump(if panicked { "seq_overflow.panicked" } else { "seq_overflow.wrapped" });
             if panicked != overflow_checks {
                 res.oracle_violations.push(OracleViolation { case_id: -1, what: format!("offset {} + {} frames exceeds u64: expected {} but the pipe {}", pc.off, n_frames, if overflow_checks { "an overflow panic" } else { "wrapping" }, if panicked { "panicked" } else { "did not panic" }), class: "seq_overflow_unexpected".into(), replay: case_json(pc, &cuts) });
